@@ -1321,3 +1321,28 @@ def feasible_reach(body, starts, goals, avoid=(), cap=60000):
         for s_ in body.succ[b]:
             work.append((s_, facts))
     return False
+
+
+
+def result_components(body, op):
+    """the parts of a generated result - a pair (events, box) or a struct that carries the two - as operands, by type:
+    {"events": [..OutputList operands..], "bbox": [..Option<BoundingBox> operands..]}; None when the value is not built
+    by an aggregate the function itself constructs"""
+    pl = op_place(op)
+    d = body.single_def(pl[0]) if pl is not None and not pl[1] else None
+    for _ in range(3):
+        if d and d[1] != TERM and d[2]["k"] == "use" and op_place(d[2]["op"]) is not None and not op_place(d[2]["op"])[1]:
+            d = body.single_def(op_place(d[2]["op"])[0])
+        else:
+            break
+    if not d or d[1] == TERM or d[2]["k"] != "aggr":
+        return None
+    out = {"events": [], "bbox": []}
+    for o in d[2].get("ops", []):
+        opl = op_place(o)
+        ty = str(body.local_ty(opl[0])) if opl is not None and not opl[1] else str((o.get("k") or {}).get("ty", "")) if isinstance(o, dict) else ""
+        if "Option<svgdx::position::BoundingBox>" in ty:
+            out["bbox"].append(o)
+        elif ty.strip() == "svgdx::events::OutputList":
+            out["events"].append(o)
+    return out if (out["events"] or out["bbox"]) else None
